@@ -801,7 +801,13 @@ class TableRow(BlockToken):
     def __init__(self, line, row_align=None, line_number=None):
         self.row_align = row_align or [None]
         self.line_number = line_number
-        cells = filter(None, self.split_pattern.split(line.strip()))
+        cells = self.split_pattern.split(line.strip())
+        # the pipes at the two ends of the row are optional and delimit nothing;
+        # an empty cell inside the row ("|a||b|") is a cell
+        if cells[0] == '':
+            del cells[0]
+        if cells and cells[-1] == '':
+            del cells[-1]
         self.children = [TableCell(self.escaped_pipe_pattern.sub('\\1|', cell.strip()) if cell else '', align, line_number)
                          for cell, align in zip_longest(cells, self.row_align)]
 
